@@ -906,3 +906,104 @@ def record_recv(case, ctx):
     if case["bufsize"] > limit:
         ctx.check(buf.raw(case["bufsize"] - limit, limit) == b"\xA5" * (case["bufsize"] - limit), "%s wrote past TLS_MAX_RECORD_SIZE bytes of the buffer" % what,
                   "record_recv/overrun")
+
+
+# ---------------------------------------------------------------------------
+# http_get against a hostile HTTP peer (the CRL download of x509_crl_new_from_uri and tools/crlget.c): a loopback server inside the worker
+# answers with a generated response - declared Content-Length, fewer / exactly as many / more body bytes than declared, in one segment or
+# split - and the caller follows the library's own two-call pattern (query the length with a NULL buffer, then fetch into a heap block of
+# exactly that size).
+import socket as _socket, threading as _threading
+
+_HTTP_SRV = {}
+
+
+def _http_server():
+    if "port" not in _HTTP_SRV:
+        ls = _socket.socket(_socket.AF_INET, _socket.SOCK_STREAM)
+        ls.bind(("127.0.0.1", 0)); ls.listen(16)
+        _HTTP_SRV["port"], _HTTP_SRV["docs"] = ls.getsockname()[1], {}
+
+        def serve():
+            while True:
+                try:
+                    c, _ = ls.accept()
+                except OSError:
+                    return
+                try:
+                    c.settimeout(10.0)
+                    c.setsockopt(_socket.IPPROTO_TCP, _socket.TCP_NODELAY, 1)
+                    req = b""
+                    while b"\r\n\r\n" not in req and len(req) < 4096:
+                        part = c.recv(1024)
+                        if not part:
+                            break
+                        req += part
+                    path = req.split(b" ")[1].decode("ascii", "replace").lstrip("/") if req.count(b" ") >= 2 else ""
+                    doc = _HTTP_SRV["docs"].get(path)
+                    if doc is not None:
+                        raw, cut = doc
+                        if 0 < cut < len(raw):
+                            c.sendall(raw[:cut])
+                            time.sleep(0.02)          # let the first segment be read on its own
+                            c.sendall(raw[cut:])
+                        else:
+                            c.sendall(raw)
+                except OSError:
+                    pass
+                finally:
+                    c.close()
+        _threading.Thread(target=serve, daemon=True).start()
+    return _HTTP_SRV
+
+
+http_case = _st.fixed_dictionaries({
+    "declared": _st.one_of(_st.integers(1, 900), _st.sampled_from([1, 16, 64, 500, 900, 1000, 1023, 1024, 3000, 20000])),
+    "actual": _st.sampled_from(["exact", "exact", "surplus", "surplus", "short"]), "extra": _st.integers(1, 700),
+    "hdr": _st.sampled_from(["plain", "more-headers", "length-first", "lowercase", "no-length", "length-zero", "length-negative", "length-huge"]),
+    "cut": _st.sampled_from([0, 0, 1, 17, 40, 200]), "fill": _st.integers(0, 255), "id": _st.integers(0, 1 << 30)})
+
+
+@P.sub("http_get", http_case, quick=600, thorough=20000, variants=("asan",), chunk=40)
+def http_get(case, ctx):
+    """http_get (length query, then fetch into an exactly-sized heap block) against generated HTTP responses from a loopback peer"""
+    import ctypes
+    from vlib.ffi import lib, Buf
+    l = lib(ctx.variant)
+    srv = _http_server()
+    n = case["declared"]
+    body = bytes([(case["fill"] + i * 7) & 0xFF for i in range(n)])
+    sent = body if case["actual"] == "exact" else body + bytes([0xEE]) * case["extra"] if case["actual"] == "surplus" else body[:max(0, n - 1 - case["extra"] % n)]
+    L = {"length-zero": b"0", "length-negative": b"-5", "length-huge": b"99999999999"}.get(case["hdr"], b"%d" % n)
+    if case["hdr"] == "more-headers":
+        head = b"HTTP/1.1 200 OK\r\nServer: x\r\nContent-Type: application/pkix-crl\r\nContent-Length: " + L + b"\r\nConnection: close\r\n\r\n"
+    elif case["hdr"] == "length-first":
+        head = b"HTTP/1.1 200 OK\r\nContent-Length: " + L + b"\r\nContent-Type: a/b\r\n\r\n"
+    elif case["hdr"] == "lowercase":
+        head = b"HTTP/1.1 200 OK\r\ncontent-length: " + L + b"\r\n\r\n"
+    elif case["hdr"] == "no-length":
+        head = b"HTTP/1.1 200 OK\r\nContent-Type: a/b\r\n\r\n"
+    else:
+        head = b"HTTP/1.1 200 OK\r\nContent-Length: " + L + b"\r\n\r\n"
+    raw = head + sent
+    name = "doc-%d-%d" % (os.getpid(), case["id"])
+    srv["docs"][name] = (raw, case["cut"])
+    uri = ("http://127.0.0.1:%d/%s" % (srv["port"], name)).encode() + b"\0"
+    try:
+        ln = ctypes.c_size_t(0)
+        r1 = l.http_get(uri, None, ctypes.byref(ln), 0)
+        ctx.case(nontrivial=case["actual"] != "exact" or case["hdr"] != "plain", classes=["body:" + case["actual"], "header:" + case["hdr"], "query-ret=%d" % r1],
+                 ident=case, sample=case)
+        if r1 < 0 or ln.value == 0 or ln.value > (1 << 20):
+            return                      # refused (or nothing to fetch): fine
+        buf = Buf(ln.value, fill=0xA5)  # exactly the size the library announced
+        ln2 = ctypes.c_size_t(0)
+        r2 = l.http_get(uri, buf, ctypes.byref(ln2), ln.value)
+    finally:
+        srv["docs"].pop(name, None)
+    what = "http_get of a response declaring %s bytes with %d body bytes following (%s header, first segment %s)" % (
+        L.decode(), len(sent), case["hdr"], "whole" if not case["cut"] else "%d bytes" % case["cut"])
+    if r2 == 1:
+        ctx.check(ln2.value <= ln.value, "%s reports %d content bytes for a buffer of %d" % (what, ln2.value, ln.value), "http_get/length")
+        ctx.check(buf.raw(min(ln2.value, ln.value)) == sent[:min(ln2.value, ln.value)], "%s delivers other bytes than the peer sent" % what, "http_get/content")
+        ctx.check(len(sent) >= ln2.value, "%s returns 1 although the body was cut short" % what, "http_get/short-accepted")
